@@ -157,6 +157,8 @@ func doDump(p *Prog, what string) {
 				fmt.Printf("      %-3s %-50s %s held=%s\n", k, a.Fn.String(), p.PosOf(a.Pos), a.Held)
 			}
 		}
+	case what == "p4":
+		dbgP4(p)
 	case what == "notifiers":
 		dbgNotifiers(p)
 	case strings.HasPrefix(what, "callers:"):
